@@ -226,9 +226,11 @@ func (c *diskCache) containsWorker() {
 
 		var foundSize int64
 		ok, foundSize = c.proxy.Contains(req.ctx, cache.CAS, (*req.digest).Hash, (*req.digest).SizeBytes)
-		if ok && isSizeMismatch((*req.digest).SizeBytes, foundSize) {
-			// Same rule as diskCache.Contains: a backend blob of another
-			// size is not the requested blob.
+		if ok && (isSizeMismatch((*req.digest).SizeBytes, foundSize) || (c.maxProxyBlobSize > 0 && foundSize > c.maxProxyBlobSize)) {
+			// Same rules as diskCache.Contains: a backend blob of another
+			// size is not the requested blob, and a backend blob larger
+			// than max_proxy_blob_size is never taken from the backend
+			// (the request may not state a size: size_bytes -1).
 			ok = false
 		}
 		if ok {
